@@ -314,3 +314,25 @@ PROPS["C16"] = {
         "chain links receive the built-in phase-2 default actions when they have an action string (TODO in rule_parser.go), which the expectation reproduces",
     ],
 }
+
+PROPS["C18"] = {
+    "level": "exploration",
+    "runs": [run("TestC18", (5000, 6), (150000, 16))],
+    "rule": "cases = (deny rule in phase 1-4 or none, deny status, request / response body access, body limits 4..40 with both limit actions) x "
+            "(request with or without the triggering header, body length below / at / above the limit, known or unknown length) x handler "
+            "script (reads the body fully / partly / not at all; optional WriteHeader with 200/201/404/500/204/304; content type in or out of "
+            "the MIME list; extra header; body written in arbitrary chunks through Write and ReadFrom with interleaved Flush), driven through "
+            "httptest.NewRecorder and, for one case in five, a real httptest server and client; oracle = blocked in a request phase: "
+            "handler never invoked, deny status (413 for a rejected body), empty body; blocked in a response phase: no handler byte reaches "
+            "the client, deny status (500 for a rejected response body); otherwise the handler reads exactly the client's bytes and the "
+            "client receives exactly the handler's status, headers and body; non-trivial = body size within +-1 of a limit, >=2 writes with a "
+            "flush between them, or any block",
+    "essential": {"all": ["blocked-in-request-phase", "request-body-limit-reject", "blocked-late", "passed-through", "request-body-at-limit",
+                          "response-body-at-limit", "writes-with-flush-between", "partial-request-body-spliced", "partial-response-body-released",
+                          "real-server", "chunked-request", "no-body-status", "implicit-write-header"]},
+    "assumptions": COMMON_ASSUME + [
+        "deny is the only disruptive action generated (status mapping of drop/redirect is not documented for the middleware)",
+        "a phase-4 rule is expected to act only when the response body is accessible and its MIME type selected (otherwise the middleware never runs that phase)",
+        "handlers that write nothing at all and hijacked connections are out of scope",
+    ],
+}
